@@ -4,7 +4,7 @@
    parse and assemble: `source_link_grouping`, `source_link_two`. -/
 import Lc3V.Lemmas.LinkImage
 import Lc3V.Lemmas.LinkTree
-import Lc3V.Props.C17
+import Lc3V.Lemmas.C17Core
 set_option linter.unusedSimpArgs false
 set_option linter.unusedVariables false
 namespace Lc3V.C20
